@@ -59,7 +59,7 @@ RULE = ('pool histories of 1-12 calls (quick) / up to 60 (thorough) over insert_
         'valid open/periodic, decreasing, too few, order<=0, periodic mismatch, within/beyond tolerance, accepted-but-not-periodic. '
         'distinct = distinct protocol lines; non-trivial = at least one call of the history completed (constructor cases: all).')
 REQUIRED_TAGS = ['op=insert', 'op=refine', 'op=raise', 'op=lower', 'op=reverse', 'op=swap', 'op=reparam', 'op=reparamall',
-                 'op=split', 'op=append', 'op=makeper', 'op=lowerper', 'op=affine', 'op=section', 'op=extrude', 'op=clone',
+                 'op=split', 'op=append', 'op=makeper', 'op=lowerper', 'op=affine', 'op=section', 'op=extrude', 'op=clone', 'op=identical',
                  'pardim=1', 'pardim=2', 'pardim=3', 'rational', 'periodic-dir', 'len>=8', 'pool>=3', 'err:ValueError',
                  'ctor=valid-open', 'ctor=valid-periodic', 'ctor=decreasing', 'ctor=too-few', 'ctor=order<=0',
                  'ctor=periodic-mismatch', 'ctor=within-tol', 'ctor=beyond-tol', 'ctor=gap', 'wf=true']
@@ -74,6 +74,7 @@ CLASS_REVERSE_PER = 'reverse-periodic-flip-only'             # C06 (model follow
 CLASS_EXTRUDE_MUT = 'extrude-mutates-operand'                # C11 (model follows the property: operand untouched)
 CLASS_CTOR_GAP = 'constructor-accepts-non-periodic-knot-vector'   # C08
 CLASS_LOWER_WEIGHTS = 'lower-order-nonpositive-weights'
+CLASS_MAKEPER_SHORT = 'make-periodic-short-direction-shape-mismatch'   # fewer than order+continuity functions
 
 _sp_cache = None
 
@@ -179,6 +180,15 @@ def _apply_instr(sp, pool, ins):
             news = [fac.extrude(o, list(ins['amount']))]
         elif k == 'clone':
             news = [o.clone()]
+        elif k == 'identical':
+            j = ins['j']
+            if not 0 <= j < len(pool):
+                raise IndexError('pool index')
+            if ins['dir'] < 0:
+                sp.SplineObject.make_splines_identical(o, pool[j])
+            else:
+                sp.SplineObject.make_splines_identical(o, pool[j], direction=ins['dir'])
+            return [i, j]
         else:
             raise AssertionError(k)
     first = len(pool)
@@ -220,6 +230,8 @@ def _enc_instr(ins):
         return [w, i, list(ins['amount'])]
     if k == 'clone':
         return [w, i]
+    if k == 'identical':
+        return [w, i, ins['j'], ins['dir']]
     raise AssertionError(k)
 
 
@@ -426,6 +438,17 @@ def _flags_before(sp, pool, ins):
         fl.append(CLASS_EXTRUDE_MUT)
     if k == 'lower' and o.rational:
         fl.append(CLASS_LOWER_WEIGHTS)
+    if k == 'makeper' and isinstance(d, int) and 0 <= d < len(o.bases):
+        b = o.bases[d]
+        c = b.order - 2 if ins['c'] is None else ins['c']
+        if b.periodic < 0 and 0 <= c <= b.order - 2 and b.num_functions() < b.order + c:
+            fl.append(CLASS_MAKEPER_SHORT)
+    if k == 'identical' and 0 <= ins['j'] < len(pool):
+        for x, y in ((o, pool[ins['j']]), (pool[ins['j']], o)):
+            if x.pardim == 1 and y.pardim == 1 and x.order(0) < y.order(0) and _overfull(x.bases[0]):
+                fl.append(CLASS_RAISE_NAN)
+        if any(_small_periodic(b) for x in (o, pool[ins['j']]) for b in x.bases):
+            fl.append(CLASS_PER_SMALL)
     return fl
 
 
@@ -568,7 +591,15 @@ def _gen_instr(rng, sp, pool, max_pool, defect=False):
     b = o.bases[d]
     if defect:
         c = rng.choice(['insert-outside', 'reparam-bad', 'bad-dir', 'insert-small', 'lower-periodic', 'raise-order1', 'raise-1d',
-                        'makeper-periodic', 'lower-too-far', 'insert-end', 'raise-negative'])
+                        'makeper-periodic', 'lower-too-far', 'insert-end', 'raise-negative', 'makeper-short', 'makeper-short'])
+        if c == 'makeper-short':
+            # uniform knots pass the constructor's spacing test; fewer than order + continuity functions
+            for dd in range(pd):
+                bb = o.bases[dd]
+                if bb.periodic < 0 and bb.order >= 3:
+                    cs = [cc for cc in range(1, bb.order - 1) if bb.order + cc > bb.num_functions() >= cc + 1]
+                    if cs:
+                        return {'op': 'makeper', 'i': i, 'c': rng.choice(cs), 'dir': dd}
         if c == 'insert-outside':
             dd = next((x for x in range(pd) if per[x] < 0), None)
             if dd is not None:
@@ -613,7 +644,7 @@ def _gen_instr(rng, sp, pool, max_pool, defect=False):
         return None
     fam = rng.choice(['insert'] * 6 + ['refine'] * 3 + ['raise'] * 3 + ['lower'] * 2 + ['reverse'] * 2 + ['swap'] * 2
                      + ['reparam'] * 2 + ['reparamall'] + ['split'] * 3 + ['append'] * 2 + ['makeper'] * 3 + ['lowerper'] * 2
-                     + ['affine'] * 6 + ['section'] * 2 + ['extrude'] + ['clone'])
+                     + ['affine'] * 6 + ['section'] * 2 + ['extrude'] + ['clone'] + ['identical'] * 2)
     ncomp = o.dimension + (1 if o.rational else 0)
     if fam == 'insert':
         if small[d] or ncp > 300 or o.shape[d] > 48:
@@ -724,6 +755,14 @@ def _gen_instr(rng, sp, pool, max_pool, defect=False):
         return {'op': 'extrude', 'i': i, 'amount': [_dy(rng), _dy(rng), rng.choice([1.0, 2.0, 0.5, -1.0])]}
     if fam == 'clone':
         return {'op': 'clone', 'i': i} if roomy else None
+    if fam == 'identical':
+        def quiet(x):
+            return (all(bb.order >= 2 and not _overfull(bb) and not _small_periodic(bb) for bb in x.bases)
+                    and max(x.shape) <= 10 and len(x) <= 60)
+        cands = [j for j, c in enumerate(pool) if j != i and c.pardim == pd and quiet(c)]
+        if not cands or not quiet(o):
+            return None
+        return {'op': 'identical', 'i': i, 'j': rng.choice(cands), 'dir': rng.choice([-1, -1, d])}
     raise AssertionError(fam)
 
 
@@ -872,9 +911,36 @@ def _ctor_cases(rng, n):
     return out
 
 
+def _focus_cases(rng):
+    """Short hand-built histories that hit, deterministically, the defect classes random search meets rarely."""
+    def curve(p, knots, k=-1, dim=2, rational=False):
+        b = {'order': p, 'knots': [float(x) for x in knots], 'periodic': k}
+        n = len(knots) - p - (k + 1)
+        return {'bases': [b], 'cps': gen.rand_cps(rng, [n], dim + (1 if rational else 0), rational), 'rational': rational}
+    out = []
+    if INCLUDE_DEFECT_CLASSES:
+        # make_periodic on a direction with fewer than order + continuity functions (uniform knots pass the constructor)
+        for p, nint, c in [(4, 1, 2), (5, 2, 3), (3, 0, 1), (4, 2, 2), (5, 2, 2)]:
+            kn = [0.0] * p + [float(x) for x in range(1, nint + 1)] + [float(nint + 1)] * p
+            out.append({'kind': 'hist', 'pool': [curve(p, kn, rational=rng.random() < 0.5)],
+                        'ops': [{'op': 'makeper', 'i': 0, 'c': c, 'dir': 0}]})
+        # Curve.raise_order with an interior knot of multiplicity = order / an end knot of multiplicity order + 1
+        out.append({'kind': 'hist', 'pool': [curve(2, [0, 0, 1, 1, 2, 2])], 'ops': [{'op': 'raise', 'i': 0, 'amounts': [1], 'dir': None}]})
+        out.append({'kind': 'hist', 'pool': [curve(3, [0, 0, 0, 1, 2, 2, 2], rational=True)],
+                    'ops': [{'op': 'insert', 'i': 0, 'dir': 0, 'refs': [['k', 0]]}, {'op': 'raise', 'i': 0, 'amounts': [1], 'dir': None}]})
+        # periodic insertion into a basis with n < p + k functions
+        out.append({'kind': 'hist', 'pool': [curve(2, [-3, 0, 3, 6], 0)], 'ops': [{'op': 'insert', 'i': 0, 'dir': 0, 'refs': [['m', 0, 0.5]]}]})
+        out.append({'kind': 'hist', 'pool': [curve(3, [-2, -1, 0, 1, 2, 3, 4], 1)], 'ops': [{'op': 'split', 'i': 0, 'dir': 0, 'refs': [['m', 0, 0.5]]}]})
+    # clean references
+    out.append({'kind': 'hist', 'pool': [curve(4, [0, 0, 0, 0, 1, 2, 3, 4, 5, 5, 5, 5], rational=True)],
+                'ops': [{'op': 'makeper', 'i': 0, 'c': 2, 'dir': 0}, {'op': 'lowerper', 'i': 1, 't': 0, 'dir': 0},
+                        {'op': 'reverse', 'i': 1, 'dir': 0}, {'op': 'split', 'i': 1, 'dir': 0, 'refs': [['m', 1, 0.5]]}]})
+    return out
+
+
 def generate(rng, tier):
     sp = _sp()
-    specs = []
+    specs = _focus_cases(rng)
     nh = 150 if tier == 'quick' else 700
     for c in range(nh):
         if tier == 'quick':
@@ -1145,6 +1211,9 @@ def classify(s, res=None):
             elif f in (CLASS_REVERSE_PER, CLASS_EXTRUDE_MUT):
                 if not fs:
                     return f       # structure is fine; only the correspondence (control points) can differ
+            elif f == CLASS_MAKEPER_SHORT:
+                if fs and n == upto:
+                    return f
             elif f == CLASS_RAISE_NAN:
                 if not fs or 'finite' in first or 'weight' in first:
                     return f
